@@ -1627,7 +1627,7 @@ def select__fold_left(self: XPathFunction, context: ta.ContextType = None) \
 
     if isinstance(result, list):
         yield from result
-    else:
+    elif result is not None:
         yield result
 
 
@@ -1654,7 +1654,7 @@ def select__fold_right(self: XPathFunction, context: ta.ContextType = None) \
 
     if isinstance(result, list):
         yield from result
-    else:
+    elif result is not None:
         yield result
 
 
